@@ -162,7 +162,19 @@ impl DmlExecutor {
             .catalog()
             .get_relation(table_id, &tree_builder, &snapshot)?;
 
-        let row_id_lease = self.ctx.catalog().lease_row_id(&relation);
+        // A caller that supplies column 0 supplies the row id: recovery replays a logged row, and the
+        // logged id is the row's id in the table tuple, in every index entry and in `next_row_id`.
+        let supplied_row_id = columns
+            .iter()
+            .position(|&c| c == 0)
+            .filter(|&i| i < values.len())
+            .map(|i| &values[i])
+            .and_then(|v| v.as_big_u_int())
+            .map(|id| id.value());
+        let row_id_lease = match supplied_row_id {
+            Some(id) => self.ctx.catalog().claim_row_id(&relation, id),
+            None => self.ctx.catalog().lease_row_id(&relation),
+        };
         let row_id = UInt64::from(row_id_lease.id());
         relation.increment_row_id();
 
